@@ -1,4 +1,5 @@
 import Driver.Mgr
+import Driver.Table
 /-! `xdriver <suite>`: one JSON object per input line, one JSON object per output line. -/
 open Lean
 
@@ -14,9 +15,22 @@ partial def loopMgr (h : IO.FS.Stream) (out : IO.FS.Stream) (s : Manager.MState)
     out.putStrLn (o.setObjVal! "n" n).compress
     loopMgr h out s' (n+1)
 
+partial def loopTable (h : IO.FS.Stream) (out : IO.FS.Stream) (s : TableM.Tbl) (n : Nat) : IO Unit := do
+  let line ← h.getLine
+  if line.isEmpty then return ()
+  match Json.parse line with
+  | .error e =>
+    out.putStrLn (Json.mkObj [("n", n), ("bad-op", .str ("parse: " ++ e))]).compress
+    loopTable h out s (n+1)
+  | .ok j =>
+    let (s', o) := DTable.step s j
+    out.putStrLn (o.setObjVal! "n" n).compress
+    loopTable h out s' (n+1)
+
 def main (args : List String) : IO UInt32 := do
   let stdin ← IO.getStdin
   let stdout ← IO.getStdout
   match args with
   | ["mgr"] => loopMgr stdin stdout Manager.MState.init 0; return 0
+  | ["table"] => loopTable stdin stdout DTable.emptyTbl 0; return 0
   | _ => IO.eprintln "usage: xdriver <suite>"; return 2
